@@ -169,6 +169,25 @@ func checkCacheKeyLayoutIn(c *Ctx, f *ssa.Function) (result *ssa.Return) {
 			}
 			for _, r2 := range referrers(x) {
 				cp, ok := r2.(*ssa.Call)
+				if ok && isC && (x.High == nil || constIntIs(x.High, func(h int64) bool { return h >= lo+2 })) {
+					// binary.BigEndian/LittleEndian.PutUint16(buf[lo:], v): two header bytes at once
+					if n := callName(cp); (n == "(encoding/binary.bigEndian).PutUint16" || n == "(encoding/binary.littleEndian).PutUint16") && len(cp.Call.Args) == 3 && cp.Call.Args[1] == ssa.Value(x) {
+						bits := ev.eval(cp.Call.Args[2])
+						_, d1 := header[lo]
+						_, d2 := header[lo+1]
+						if len(bits) == 16 && !d1 && !d2 {
+							if !instrDominates(cp, keyRet) {
+								c.fail("getMsgKey:header", instrPos(cp), "store to key bytes %d..%d does not happen on every path to the return", lo, lo+1)
+							}
+							hiB, loB := bits[8:16], bits[0:8]
+							if strings.Contains(n, "little") {
+								hiB, loB = loB, hiB
+							}
+							header[lo], header[lo+1] = hiB, loB
+							continue
+						}
+					}
+				}
 				if !ok || callName(cp) != "builtin:copy" || cp.Call.Args[0] != ssa.Value(x) {
 					// any other use of a sub-slice of the key buffer (element stores through the alias, further
 					// slicing, ranging) can rewrite key bytes after they were laid out
@@ -524,4 +543,9 @@ func runC04rest(c *Ctx, f *ssa.Function, keyRet *ssa.Return) {
 		_ = types.Typ
 		c.check(okKey, "shard-key@"+name, sf.Pos(), "shard map is indexed by the full key", "shard map is not indexed by the key parameter (hash-only addressing would merge colliding keys)")
 	}
+}
+
+func constIntIs(v ssa.Value, pred func(int64) bool) bool {
+	n, ok := constInt(v)
+	return ok && pred(n)
 }
